@@ -152,6 +152,8 @@ def verify_unit(unit, info, repo, workdir, seed=None, rlimit_mult=1):
         res['undecided'].append('assemble: %s' % e)
         return res
     res['regions'] = a['regions']
+    res['fnprops'] = template_directives(info['path'])['fnprops']
+    res['allprops'] = info.get('allprops', [])
     res['notes'] = a['notes']
     text = a['text']
     lines = text.split('\n')
@@ -230,7 +232,7 @@ def verify_unit(unit, info, repo, workdir, seed=None, rlimit_mult=1):
                 break
         site = lines[ln].strip() if ln is not None and ln < len(lines) else ''
         reg = region_by_label.get(lm[0]) if lm[0] else None
-        props = (reg['props'] if reg else None) or direc['fnprops'].get(fn) or a['props']
+        props = (reg['props'] if reg else None) or direc['fnprops'].get(fn) or info.get('allprops') or a['props']
         aux = any(re.search(p, site) or re.search(p, clause) for p in direc['aux']) or '// aux' in site or '// aux' in clause
         res['failures'].append({
             'unit': unit, 'function': label, 'verus_fn': fn, 'kind': kind, 'message': msg, 'site': site,
@@ -258,6 +260,42 @@ def verify_unit(unit, info, repo, workdir, seed=None, rlimit_mult=1):
     if res['verified'] == 0 and not frontend:
         res['undecided'].append('zero obligations verified')
     return res
+
+
+def region_verus_name(reg):
+    """(Type or None, fn name) under which Verus reports the function of a region"""
+    label = reg['function']
+    cont, _, fn = label.rpartition('::')
+    typ = None
+    if cont:
+        c = re.sub(r'<[^<>]*>', '', cont)
+        c = re.sub(r'<[^<>]*>', '', c)
+        m = re.search(r'\bfor\s+&?\s*(\w+)', c) or re.match(r'\s*(?:impl|trait)\s+(\w+)', c)
+        typ = m.group(1) if m else None
+    return typ, reg.get('renamed_to') or fn
+
+
+def functions_of_property(r, prop):
+    """breakdown entries (exec/proof functions with SMT queries) of unit result r that serve prop"""
+    by_region = {}
+    for reg in r['regions']:
+        by_region.setdefault(region_verus_name(reg), []).append(reg)
+    out = []
+    for f in r['functions']:
+        parts = f['function'].split('::')
+        name = parts[-1]
+        typ = parts[-2] if len(parts) >= 2 else None
+        if name.startswith('canary_'):
+            continue
+        regs = by_region.get((typ, name)) or (by_region.get((None, name)) if typ is None else None)
+        if regs:
+            if any(prop in rg['props'] for rg in regs):
+                out.append(f)
+        else:
+            props = r.get('fnprops', {}).get(name) or r.get('allprops') or []
+            if prop in props or not props:
+                out.append(f)
+    return out
 
 
 def obligation_id(f):
@@ -303,6 +341,10 @@ def main():
     if not units:
         print('UNDECIDED property=%s reason=no contract unit serves this property' % prop)
         sys.exit(2)
+    import imports
+    import_problems = []
+    for u, info in units.items():
+        import_problems += ['%s: %s' % (u, x) for x in imports.check_imports(info['path'], all_units)]
     scratch_root = os.environ.get('TMPDIR', '/var/tmp')
     work = tempfile.mkdtemp(prefix='verif-scratch.', dir=scratch_root)
     results = []
@@ -325,6 +367,8 @@ def main():
                 results.append(j.result())
             for j in plug:
                 extra.append(j.result())
+        if import_problems:
+            extra.append({'name': 'imports', 'undecided': import_problems, 'failures': []})
         rc = report(prop, tier, seed, results, extra, time.time() - t0)
     finally:
         if not a.keep:
@@ -439,25 +483,30 @@ def report(prop, tier, seed, results, extra, wall):
     for u in undecided:
         print('UNDECIDED property=%s reason=%s' % (prop, u))
     # ---- evidence
-    obligations = sum(r.get('obligations', 0) for r in results) + sum(e.get('obligations', 0) for e in extra)
+    per_prop = {r['unit']: functions_of_property(r, prop) for r in results if not r.get('dependency_of')}
+    dep_funcs = {r['unit']: [f for f in r['functions'] if not f['function'].split('::')[-1].startswith('canary_')] for r in results if r.get('dependency_of')}
+    obligations = sum(len(v) for v in per_prop.values()) + sum(e.get('obligations', 0) for e in extra)
     failed_ids = {obligation_id(f) for r in results for f in r['failures']} | {obligation_id(f) for e in extra for f in e.get('failures', [])}
-    n_failed_units = sum(max(0, r['errors'] - len(r['canaries_ok'])) for r in results) + sum(e.get('failed', 0) for e in extra)
-    discharged = obligations - n_failed_units
+    discharged = sum(1 for v in per_prop.values() for f in v if f['success']) + sum(e.get('obligations', 0) - e.get('failed', 0) for e in extra)
     trusted = sorted({t for r in results for t in r['trusted']} | {t for e in extra for t in e.get('trusted', [])})
     functions = []
     for r in results:
         for reg in r['regions']:
-            fb = [f for f in r['functions'] if f['function'].split('::')[-1] == reg['function'].split('::')[-1]]
-            functions.append({'unit': r['unit'], 'function': reg['function'], 'source_file': reg['source_file'],
+            if not r.get('dependency_of') and prop not in reg['props']:
+                continue
+            typ, nm = region_verus_name(reg)
+            fb = [f for f in r['functions'] if f['function'].split('::')[-1] == nm and (typ is None or typ in f['function'].split('::'))]
+            functions.append({'unit': r['unit'], 'role': 'dependency (imported contract proved here)' if r.get('dependency_of') else 'property',
+                              'function': reg['function'], 'source_file': reg['source_file'],
                               'line': reg['line'], 'sha256': reg['sha256'], 'mode': reg['mode'],
                               'rewrites_applied': reg['rewrites_applied'],
                               'changed_since_baseline': reg['changed_since_baseline'], 'backend': 'verus/z3',
                               'smt_time_us': sum(x['smt_time_us'] for x in fb) if fb else None,
-                              'success': all(x['success'] for x in fb) if fb else None})
+                              'success': (all(x['success'] for x in fb) if fb else None) if reg['mode'] == 'verified' else None})
     samples = []
     for r in results:
-        for f in r['functions'][:400]:
-            if f['mode'] == 'exec' and not f['function'].split('::')[-1].startswith('canary_') and len(samples) < 6:
+        for f in per_prop.get(r['unit'], []):
+            if f['mode'] == 'exec' and not f['function'].split('::')[-1].startswith('witness_') and len(samples) < 6:
                 samples.append({'obligation': '%s::%s (all pre/postconditions, invariants, overflow, bounds, panics of this function)'
                                 % (r['unit'], f['function']), 'backend': 'verus/z3', 'smt_time_us': f['smt_time_us'],
                                 'discharged': f['success']})
@@ -467,8 +516,10 @@ def report(prop, tier, seed, results, extra, wall):
         'property_id': prop, 'tier': tier, 'seed': seed, 'level': 'proof',
         'coverage': {
             'obligations': obligations, 'discharged': discharged,
-            'obligation_unit': 'one per verified function (Verus proof unit: all clauses, loop invariants, overflow/bounds/panic '
-                               'checks of that function) plus one per Kani check; vacuity canaries excluded',
+            'obligation_unit': 'one per exec/proof function of this property that Verus sends to the SMT solver (all clauses, loop invariants, '
+                               'overflow/bounds/panic checks of that function), plus one per Kani harness; vacuity canaries and the functions of '
+                               'dependency units are NOT counted here (they are listed under dependency_units)',
+            'dependency_units': {u: {'functions': len(v), 'discharged': sum(1 for f in v if f['success'])} for u, v in dep_funcs.items()},
             'checker_cmd': ' ; '.join([r['cmd'] for r in results] + [e.get('cmd', '') for e in extra if e.get('cmd')]),
             'trusted_base': trusted,
             'functions_under_contract': functions,
